@@ -89,6 +89,37 @@ static Bytes seed_file(Rng &r, int fmt, std::string &fmtname)
         put_str(f, "MTrk"); put_be(f, b.size(), 4); put_bytes(f, b);
         return f;
     }
+    case 10:
+    {   // well-formed multi-device SMF: tracks name MIDI devices (FF 09), also more than one per track, and play every kind of
+        // channel event behind them (the track-to-device map and the grown channel table are state that outlives a song)
+        fmtname = "multiport";
+        Song sg; sg.format = 1; sg.division = 96; sg.running_status = r.chance(0.5);
+        int nt = r.range(2, 4); sg.tracks.resize((size_t)nt);
+        for(int t = 0; t < nt; t++)
+        {
+            int serial = 0; uint64_t tick = 0; STrack &tr = sg.tracks[(size_t)t];
+            auto push = [&](SEv e) { e.serial = serial++; tr.ev.push_back(e); };
+            int ndev = r.range(0, 3);
+            int n = r.range(3, 12);
+            for(int i = 0; i < n; i++)
+            {
+                tick += (uint64_t)(r.chance(0.4) ? 0 : r.range(1, 48));
+                if(ndev > 0 && r.chance(0.3)) { push(mk_meta_text(tick, 0x09, vfmt("dev%d", (int)r.below(4)))); ndev--; continue; }
+                int ch = (int)r.below(16), key = r.range(30, 90);
+                switch(r.below(7))
+                {
+                case 0: case 1: push(mk_chan(tick, 0x90 | ch, key, r.range(1, 127))); break;
+                case 2: push(mk_chan(tick, 0x80 | ch, key, 0)); break;
+                case 3: push(mk_chan(tick, 0xA0 | ch, key, r.range(0, 127))); break;
+                case 4: push(mk_chan(tick, 0xD0 | ch, r.range(0, 127))); break;
+                case 5: push(mk_chan(tick, 0xE0 | ch, r.range(0, 127), r.range(0, 127))); break;
+                default: push(mk_chan(tick, 0xB0 | ch, (int)r.pick((const int[]){1, 7, 10, 11, 64, 0, 32, 6, 100, 101}), r.range(0, 127))); break;
+                }
+            }
+            push(mk_meta(tick + (uint64_t)r.range(0, 48), 0x2F, std::vector<uint8_t>()));
+        }
+        return serialize_song(sg);
+    }
     case 9:
     {   // well-formed XMI whose sequence uses the AIL loop controllers: FOR (CC116 n), NEXT (CC117 >= 64), BREAK (CC117 < 64),
         // balanced or not, nested, with infinite counts; seeks land inside loop bodies
@@ -461,7 +492,7 @@ static RunOut exercise(Case &c, Rng &r, const Bytes &file, int presel_song, int 
         if(endless_ok) break;
         {   // second load: valid or hostile
             Rng r2(c.rng.next(), 77, (uint64_t)i);
-            std::string nm; Bytes f2 = r.chance(0.4) ? seed_file(r2, (int)r2.below(5), nm) : (r.chance(0.5) ? hostile_other(r2, nm) : hostile_smf(r2, nm));
+            std::string nm; Bytes f2 = r.chance(0.4) ? seed_file(r2, r2.chance(0.35) ? 10 : (int)r2.below(5), nm) : (r.chance(0.5) ? hostile_other(r2, nm) : hostile_smf(r2, nm));
             ExactBuf in(f2); int rc2 = 0;
             if(via_file)
             {
@@ -558,10 +589,10 @@ static void run_case(Case &c)
     else
     {
         int cls = (int)r.below(100);
-        if(cls < 38) { std::string nm; file = seed_file(r, (int)r.below(10), nm); int before = (int)file.size(); mutate(r, file); desc = vfmt("mutated-%s(%d->%zu)", nm.c_str(), before, file.size()); }
+        if(cls < 38) { std::string nm; file = seed_file(r, (int)r.below(11), nm); int before = (int)file.size(); mutate(r, file); desc = vfmt("mutated-%s(%d->%zu)", nm.c_str(), before, file.size()); }
         else if(cls < 63) file = hostile_smf(r, desc);
         else if(cls < 85) file = hostile_other(r, desc);
-        else { std::string nm; file = seed_file(r, r.chance(0.5) ? (r.chance(0.5) ? 8 : 9) : (int)r.below(8), nm); desc = "wellformed-" + nm; }
+        else { std::string nm; file = seed_file(r, r.chance(0.6) ? (int)r.pick((const int[]){8, 9, 10}) : (int)r.below(8), nm); desc = "wellformed-" + nm; }
         presel = r.chance(0.3) ? r.range(-2, 5) : 0;
         nfollow = r.range(0, 40);
         if(file.size() > 6000) nfollow = std::min(nfollow, 8);   // event storms: every seek replays thousands of events
